@@ -47,13 +47,13 @@ Proof.
     rewrite if_false by lia. rewrite Z.mul_1_r. reflexivity.
 Qed.
 
-(* unknown sampling-rate index 15 ("non-standard rate" in the format): the code has no table row *)
+(* sampling-rate index 15 ("non-standard rate, stored elsewhere"): no table row, rejected with WavPackHeaderError *)
 Theorem wavpack_rate_index_15 ck version total block_samples bytes_code mono misc_lo misc_hi dsd crc rest :
   0 <= ck < 4294967296 -> 0 <= version < 65536 -> 0 <= total < 4294967296 -> 0 <= block_samples < 4294967296 ->
   0 <= bytes_code <= 3 -> 0 <= mono <= 1 -> 0 <= misc_lo < 1048576 -> 0 <= misc_hi < 16 -> 0 <= dsd <= 1 ->
   0 <= crc < 4294967296 ->
   decode_wavpack (build_wavpack_block ck version total 0 block_samples
-                    (wavpack_flags bytes_code mono misc_lo 15 misc_hi dsd) crc ++ rest) = Raise EIndex.
+                    (wavpack_flags bytes_code mono misc_lo 15 misc_hi dsd) crc ++ rest) = Raise EMutagen.
 Proof.
   intros Hck Hv Ht Hbs Hbc Hm Hlo Hhi Hd Hcrc.
   unfold decode_wavpack.
